@@ -65,7 +65,8 @@ FLAVORS = {
 def impl_hash(flavor):
     srcs = glob.glob(os.path.join(REPO, 'src', '*.cc')) + glob.glob(os.path.join(REPO, 'src', '*.h')) + \
            glob.glob(os.path.join(REPO, 'src', '*.c'))
-    hs = glob.glob(os.path.join(VERIF, 'harness', '*'))
+    hs = [os.path.join(VERIF, 'harness', l.strip()) for l in open(os.path.join(VERIF, 'harness', 'ENABLED')) if l.strip()] + \
+         glob.glob(os.path.join(VERIF, 'harness', '*.h')) + glob.glob(os.path.join(VERIF, 'harness', 'helpers', '*')) + [os.path.join(VERIF, 'harness', 'ENABLED')]
     return _hash_files([p for p in srcs + hs if os.path.isfile(p)], (flavor + ' '.join(FLAVORS[flavor])).encode())
 
 class BuildError(Exception):
@@ -88,7 +89,7 @@ def build_impl(flavor='asan'):
         cmds = []
         for s in LIB_SOURCES + ['ninja.cc']:
             cmds.append(cxx + ['-c', os.path.join(REPO, 'src', s), '-o', os.path.join(d, 'obj', s[:-3] + '.o')])
-        hsrc = sorted(glob.glob(os.path.join(VERIF, 'harness', '*.cc')))
+        hsrc = [os.path.join(VERIF, 'harness', l.strip()) for l in open(os.path.join(VERIF, 'harness', 'ENABLED')) if l.strip()]
         for s in hsrc:
             cmds.append(cxx + ['-I' + os.path.join(VERIF, 'harness'), '-c', s, '-o',
                                os.path.join(d, 'obj', 'h_' + os.path.basename(s)[:-3] + '.o')])
